@@ -1,17 +1,10 @@
 (* C01 -- facts about the reflected class tree (Gen/C01_ClassTree.v), decided by vm_compute over the
    complete finite tree, lifted to all class ids. *)
-From PV Require Import Lib.Base Gen.C01_ClassTree Model.C01.
+From PV Require Import Lib.Base Gen.C01_ClassTree Model.C01 Model.C01_Tree.
 
-Definition anc_of (d : Z) : list Z := match zlookup d ct_anc with Some l => l | None => [] end.
 (* issubclass(d, c) and d is not c, read off d.__mro__ *)
 Definition strict_descendant (d c : Z) : Prop := d <> c /\ In c (anc_of d).
-Definition strict_desc_b (d c : Z) : bool := negb (d =? c) && zmem c (anc_of d).
-
-Definition classes : list Z := zrange 0 ct_n_nat.
 Definition valid_cls (c : Z) : Prop := 0 <= c < ct_n.
-
-Fixpoint nodup_b (l : list Z) : bool :=
-  match l with [] => true | x :: r => negb (zmem x r) && nodup_b r end.
 
 Lemma zmem_In x l : zmem x l = true <-> In x l.
 Proof.
@@ -51,9 +44,6 @@ Lemma tree_keys : map fst ct_subs = classes /\ map fst ct_anc = classes /\ map f
 Proof. vm_compute. repeat split. Qed.
 
 (* the model's iter_subclasses returns, for every class, what partitura's iter_subclasses returned *)
-Definition itersub_b (c : Z) : bool :=
-  match zlookup c ct_itersub with Some l => list_eqb Z.eqb l (iter_subclasses c) | None => false end.
-
 Lemma itersub_all : forallb itersub_b classes = true.
 Proof. vm_cast_no_check (eq_refl true). Qed.
 
@@ -65,9 +55,6 @@ Proof.
   f_equal. apply (list_eqb_eq Z.eqb); auto. intros x y E. apply Z.eqb_eq; auto.
 Qed.
 
-Definition closed_list_b (l : list Z) (c : Z) : bool :=
-  nodup_b l && forallb (fun d => zmem d classes) l
-  && forallb (fun d => Bool.eqb (zmem d l) (strict_desc_b d c)) classes.
 Lemma closed_all : forallb (fun c => closed_list_b (iter_subclasses c) c) classes = true.
 Proof. vm_cast_no_check (eq_refl true). Qed.
 
@@ -121,9 +108,6 @@ Proof.
 Qed.
 
 (* the diamond: ConstantLoudnessDirection is reached through ConstantDirection and LoudnessDirection, once *)
-Definition cls_named (s : string) : option Z :=
-  option_map fst (find (fun e => String.eqb (snd e) s) ct_names).
-
 Lemma diamond_lemma :
   match cls_named "Direction", cls_named "ConstantLoudnessDirection", cls_named "LoudnessDirection", cls_named "ConstantDirection" with
   | Some d, Some cl, Some l, Some c =>
@@ -131,3 +115,39 @@ Lemma diamond_lemma :
   | _, _, _, _ => False
   end.
 Proof. vm_compute. repeat split; auto 10. Qed.
+
+(* ---------------------------------------------------------------- stated on the implementation's output *)
+(* what partitura's iter_subclasses really returned (reflected into ct_itersub) is, for every class of the
+   tree, the list of its strict descendants, each exactly once *)
+Lemma impl_itersub_closed_lemma : forall c, valid_cls c ->
+  NoDup (impl_itersub c) /\ (forall d, In d (impl_itersub c) <-> strict_descendant d c).
+Proof.
+  intros c Hc. unfold impl_itersub. rewrite (itersub_matches_impl_lemma c Hc).
+  destruct (subclasses_closed_lemma c Hc) as [A [B _]]. auto.
+Qed.
+
+Lemma count_z_count_occ x l : count_z x l = count_occ Z.eq_dec l x.
+Proof.
+  induction l as [|y r IH]; simpl; auto.
+  destruct (Z.eq_dec y x) as [->|N]; [rewrite Z.eqb_refl; auto|].
+  destruct (Z.eqb_spec x y); [congruence|auto].
+Qed.
+
+(* every strict descendant -- in particular every class reached along two inheritance paths -- is
+   enumerated exactly once, by the model and by the implementation *)
+Lemma descendant_once_lemma : forall c d, valid_cls c -> strict_descendant d c ->
+  count_occ Z.eq_dec (iter_subclasses c) d = 1%nat /\ count_occ Z.eq_dec (impl_itersub c) d = 1%nat.
+Proof.
+  intros c d Hc Hd.
+  destruct (subclasses_closed_lemma c Hc) as [A [B _]].
+  destruct (impl_itersub_closed_lemma c Hc) as [A' B'].
+  split; apply NoDup_count_occ'; auto; [apply B | apply B']; auto.
+Qed.
+
+(* the tree does contain multiply-inherited classes, and above each of them a class reaching it twice *)
+Definition two_paths_b (c d : Z) : bool :=
+  Nat.leb 2 (List.length (filter (fun s => (s =? d) || strict_desc_b d s) (subs_of c))).
+Lemma multi_parent_exists_lemma :
+  multi_parent <> [] /\
+  forallb (fun d => existsb (fun c => strict_desc_b d c && two_paths_b c d) classes) multi_parent = true.
+Proof. split; [vm_compute; discriminate | vm_cast_no_check (eq_refl true)]. Qed.
